@@ -3,15 +3,17 @@ cache completeness of the per-state action order, result assembly."""
 from __future__ import annotations
 
 import ast
+import re
 from fractions import Fraction
 from typing import Dict, List, Optional
 
 from .. import alg
+from ..pat import Snips
 from ..callgraph import CallGraph
 from ..cfg import cfg_of
 from ..model import FunctionInfo, AnalysisError
 from ..report import Ctx
-from ..util import norm, fn_body_nodes, walk_local, kwarg, is_none_test
+from ..util import norm, fn_body_nodes, walk_local, kwarg, is_none_test, name_free
 from .common import arg_permutation_rule, names_in, calls_named
 from .c07 import items_loop_info, enclosing_loops
 
@@ -28,11 +30,19 @@ RULES = ("BEL-2 Q increment normal form; BEL-7 value-table reads are guarded by 
          "GRD-1 greedy action from the state's own action list; BEL-5 converged assigned on every exit; BEL-6 initial value; RES-1 result assembly")
 
 
-def cache_completeness(ctx: Ctx, f: FunctionInfo, rule="CACHE-1") -> int:
+def role_text(text: str, roles: Dict[Optional[str], str]) -> str:
+    """`text` with every local whose role is known replaced by <role> (messages must not depend on the spelling of locals)."""
+    for nm, role in roles.items():
+        if nm:
+            text = re.sub(rf"(?<![\w.]){re.escape(nm)}\b", f"<{role}>", text)
+    return text
+
+
+def cache_completeness(ctx: Ctx, f: FunctionInfo, rule="CACHE-1") -> List[str]:
     """lookup-or-compute idiom:  if k in M: x = M[k]  else: x = compute ; M[k] = x   -- the store must lie on every path from a
-    computing definition of x to the function's exit."""
+    computing definition of x to the function's exit.  Returns the names bound to the looked-up value (one per idiom found)."""
     cfg = cfg_of(f)
-    n = 0
+    n: List[str] = []
     for g in cfg.nodes:
         if g.kind != "if":
             continue
@@ -48,18 +58,27 @@ def cache_completeness(ctx: Ctx, f: FunctionInfo, rule="CACHE-1") -> int:
         stores = [s for s in ast.walk(f.node) if isinstance(s, ast.Assign) and isinstance(s.targets[0], ast.Subscript)
                   and ast.unparse(s.targets[0].value) == cache and ast.unparse(s.targets[0].slice) == key]
         computes = [s for st in g.ast.orelse for s in ast.walk(st) if isinstance(s, ast.Assign) and any(isinstance(x, ast.Name) and x.id == var for x in s.targets)]
-        n += 1
-        inst = f"cache {cache}[{key}] of `{var}`"
+        n.append(var)
+        shown = f"{name_free(f, t.comparators[0])}[{name_free(f, t.left)}]"
+        inst = f"cache {shown} of the looked-up value"
         if not stores:
-            ctx.violation(rule, f, g.ast, inst, f"`{var}` is computed on a cache miss but never stored into {cache}[{key}]: repeated calls recompute it (differently when it is randomised)")
+            ctx.violation(rule, f, g.ast, inst, f"the looked-up value is computed on a cache miss but never stored into {shown}: repeated calls recompute it (differently when it is randomised)")
             continue
         snodes = {cfg.node_for(s) for s in stores}
         bad = [c for c in computes if not cfg.all_paths_pass(cfg.node_for(c), cfg.exit.id, snodes)]
         ok = not bad and all(ast.unparse(s.value) == var for s in stores)
         ctx.check(ok, rule, f, stores[0], inst, "every computing path stores into the cache",
-                  f"after `{norm(bad[0], 50) if bad else ''}` some path reaches the return without `{cache}[{key}] = {var}`: the order computed there "
+                  f"after `{role_text(norm(bad[0], 50), {var: 'looked-up value'}) if bad else ''}` some path reaches the return without storing the looked-up value into {shown}: the order computed there "
                   f"(a fresh shuffle) is not remembered, so ties are broken differently on each call")
     return n
+
+
+def calls_named_in(node: ast.AST, name: str) -> bool:
+    return any(isinstance(c, ast.Call) and isinstance(c.func, ast.Attribute) and c.func.attr == name for c in ast.walk(node))
+
+
+def _in_loop(fi: FunctionInfo, node: ast.AST) -> bool:
+    return any(node is x for l in ast.walk(fi.node) if isinstance(l, (ast.While, ast.For)) for x in ast.walk(l) if x is not l)
 
 
 def run(ctx: Ctx):
@@ -77,80 +96,113 @@ def run(ctx: Ctx):
     lps = [n for n in fn_body_nodes(q) if isinstance(n, ast.For)]
     info = items_loop_info(lps[0]) if lps else None
     if accs and info:
+        # roles: ns / pr are the key / value unpacked from next_state_dist(s, a).items(); the future value is the remaining factor
         ns, pr = info[3], info[4]
-        ctx.check(info[1] == "next_state_dist" and info[2] == [s, a], "BEL-2", q, lps[0], f"Q sums over next_state_dist({s}, {a})", "", f"Q enumerates {info[1]}({', '.join(info[2])})")
+        ctx.check(info[1] == "next_state_dist" and info[2] == [s, a], "BEL-2", q, lps[0], f"Q sums over next_state_dist({s}, {a})", "",
+                  f"Q enumerates {info[1]}({', '.join(role_text(x, {ns: 'successor', pr: 'probability'}) for x in info[2])})")
         p = alg.normalise(accs[0].value)
         fut = [k for m in p for k, _ in m if k not in (pr, f"{mdp}.discount_rate") and not k.startswith(f"{mdp}.reward")]
         fvar = fut[0] if fut else "?"
+        qroles = {ns: "successor", pr: "probability", fvar: "future value"}
         want = {tuple(sorted(((pr, 1), (f"{mdp}.reward({s}, {a}, {ns})", 1)))): Fraction(1),
                 tuple(sorted(((pr, 1), (f"{mdp}.discount_rate", 1), (fvar, 1)))): Fraction(1)}
-        ctx.check(p == want, "BEL-2", q, accs[0], "Q increment = p*reward(s,a,ns) + p*gamma*future", alg.show(p), f"increment normalises to `{alg.show(p)}`")
+        shown = role_text(alg.show(p), qroles)
+        ctx.check(p == want, "BEL-2", q, accs[0], "Q increment = p*reward(s,a,ns) + p*gamma*future", shown, f"increment normalises to `{shown}`")
         # BEL-7: the future value is read only for non-absorbing successors
         cfg = cfg_of(q)
         reads = [n for n in ast.walk(lps[0]) if isinstance(n, ast.Subscript) and ast.unparse(n.value).endswith(".V") and isinstance(n.ctx, ast.Load)]
         for r in reads:
             node = cfg.node_for(r)
+            at = ast.unparse(r.slice)
+            where = "the enumerated successor" if at == ns else f"`{name_free(q, r.slice)}`"
             gs = [(cfg.nodes[b].ast.test, lab) for b, lab in cfg.guards(node) if cfg.nodes[b].kind == "if"]
-            ok = any(ast.unparse(t) == f"not {mdp}.is_absorbing({ast.unparse(r.slice)})" and lab.startswith("T") for t, lab in gs)
-            ctx.check(ok, "BEL-7", q, r, f"read V[{ast.unparse(r.slice)}] is guarded by `not is_absorbing`", "", f"`{norm(r)}` is read for absorbing successors too: the heuristic's value of a terminal state leaks into Q")
-            ctx.check(ast.unparse(r.slice) == ns, "BEL-7", q, r, "future value is read at the enumerated successor", "", f"future value read at `{ast.unparse(r.slice)}`")
+            ok = any(ast.unparse(t) == f"not {mdp}.is_absorbing({at})" and lab.startswith("T") for t, lab in gs)
+            ctx.check(ok, "BEL-7", q, r, f"read of the value table at {where} is guarded by `not is_absorbing`", "",
+                      f"the value table is read at {where} for absorbing successors too: the heuristic's value of a terminal state leaks into Q")
+            ctx.check(at == ns, "BEL-7", q, r, "future value is read at the enumerated successor", "", f"future value read at {where}")
         zero = [n for n in ast.walk(lps[0]) if isinstance(n, ast.Assign) and ast.unparse(n.targets[0]) == fvar and isinstance(n.value, ast.Constant) and n.value.value == 0]
         ctx.check(bool(zero), "BEL-7", q, lps[0], "future value defaults to 0 (absorbing successors)", "", "future value is not reset to 0 for each successor")
     else:
         ctx.violation("BEL-2", q, q.node, "Q accumulation", "Q does not accumulate over successors")
     # ---------------- Bellman update
     bu = C.methods["_bellman_update"]
+    SB = Snips(bu)
     st = [n for n in fn_body_nodes(bu) if isinstance(n, ast.Assign)]
     bm, bs = bu.positional_params[1:3]
-    ok = bool(st) and ast.unparse(st[0].targets[0]).endswith(f".V[{bs}]") and ast.unparse(st[0].value).replace(" ", "") == f"max((self.Q({bm},{bs},a)forain{bm}.actions({bs})))"
-    ctx.check(ok, "UPD-1", bu, st[0] if st else bu.node, "V[s] = max over mdp.actions(s) of Q(s, a)", "", f"Bellman update is `{norm(st[0]) if st else None}`")
+    # the comprehension variable is a role (bound consistently in element and generator); everything else is pinned
+    ok = bool(st) and SB.m(f"E_res.V[{bs}] = max(self.Q({bm}, {bs}, act) for act in {bm}.actions({bs}))", st[0]) is not None
+    ctx.check(ok, "UPD-1", bu, st[0] if st else bu.node, "V[s] = max over mdp.actions(s) of Q(s, a)", "", f"Bellman update is `{name_free(bu, st[0]) if st else None}`")
     # ---------------- labelling
     cs = C.methods["_check_solved"]
+    cm, cst = cs.positional_params[1:3]
+    SC = Snips(cs)
     cfg = cfg_of(cs)
-    res = [n for n in fn_body_nodes(cs) if isinstance(n, ast.Assign) and ast.unparse(n.targets[0]) == "residual"]
-    ok = bool(res) and ast.unparse(res[0].value).replace(" ", "") == "self.res.V[s]-self.Q(mdp,s,self.policy(mdp,s))"
-    ctx.check(ok if ok else None, "LAB-1", cs, res[0] if res else cs.node, "residual = V[s] - Q(s, greedy(s))", "", "idiom not recognised")
-    cmpn = [n for n in cfg.nodes if n.kind == "if" and "residual" in ast.unparse(n.ast.test)]
+    own = list(fn_body_nodes(cs))
+    # role `residual`: the target of  V[s] - Q(s, greedy(s));  when that shape changed, the target of a difference involving self.Q
+    resn, renv = SC.first(f"residual = self.res.V[{cst}] - self.Q({cm}, {cst}, self.policy({cm}, {cst}))")
+    ok = resn is not None and any(resn is n for n in own)
+    if not ok:
+        cand = [(n, e) for n, e in SC.find("residual = E_minuend - E_subtrahend") if any(n is x for x in own) and calls_named_in(n.value, "Q")]
+        resn, renv = cand[0] if cand else (None, None)
+    residual = renv["residual"] if renv else None
+    ctx.check(ok if ok else None, "LAB-1", cs, resn if resn is not None else cs.node, "residual = V[s] - Q(s, greedy(s))", "", "idiom not recognised")
+    cmpn = [n for n in cfg.nodes if n.kind == "if" and residual is not None and residual in names_in(n.ast.test)]
+    rets = [n for n in own if isinstance(n, ast.Return)]
+    marks = [n for n in ast.walk(cs.node) if isinstance(n, ast.Assign) and ".solved[" in ast.unparse(n.targets[0]) and ast.unparse(n.value) == "True"]
+    # role `flag`: four structural positions name it -- cleared when the residual exceeds the margin, returned, initialised to True
+    # before the loops, tested on the path that labels states.  The name that fills most of them (ties: in that order) is the flag;
+    # every rule below is then stated on that one name, so a position filled by something else is reported under its own rule.
+    votes: List[str] = []
+    if cmpn:
+        votes += [e_["flag"] for e_ in (SC.m("flag = False", s_) for s_ in cmpn[0].ast.body) if e_ is not None][:1]
+    if rets and isinstance(rets[0].value, ast.Name):
+        votes.append(rets[0].value.id)
+    votes += [e_["flag"] for e_ in (SC.m("flag = True", n) for n in cs.node.body) if e_ is not None][:1]
+    for mk in marks:
+        votes += [cfg.nodes[b].ast.test.id for b, lab in cfg.guards(cfg.node_for(mk)) if cfg.nodes[b].kind == "if" and lab.startswith("T")
+                  and isinstance(cfg.nodes[b].ast.test, ast.Name)][:1]
+    flag = max(votes, key=lambda v: (votes.count(v), -votes.index(v))) if votes else None
+    lroles = {residual: "residual", flag: "flag"}
     if cmpn:
         t = cmpn[0].ast.test
-        ok = isinstance(t, ast.Compare) and isinstance(t.ops[0], ast.Gt) and ast.unparse(t.left) == "abs(residual)" and ast.unparse(t.comparators[0]) == "self.bellman_error_margin"
-        ctx.check(ok, "LAB-1", cs, cmpn[0].ast, "residual test: |residual| > configured bellman_error_margin", norm(t), f"residual test is `{norm(t)}`")
-        falses = [s for s in cmpn[0].ast.body if isinstance(s, ast.Assign) and ast.unparse(s.targets[0]) == "flag" and ast.unparse(s.value) == "False"]
+        ok = SC.m("abs(residual) > self.bellman_error_margin", t, {"residual": residual}) is not None and isinstance(t.ops[0], ast.Gt)
+        ctx.check(ok, "LAB-1", cs, cmpn[0].ast, "residual test: |residual| > configured bellman_error_margin", role_text(norm(t), lroles), f"residual test is `{role_text(norm(t), lroles)}`")
+        falses = [s_ for s_ in cmpn[0].ast.body if flag is not None and SC.m("flag = False", s_, {"flag": flag}) is not None]
         ctx.check(bool(falses), "LAB-1", cs, cmpn[0].ast, "a residual above the margin clears the flag", "", "the flag is not cleared when the residual exceeds the margin")
     else:
         ctx.violation("LAB-1", cs, cs.node, "residual test", "no residual comparison")
-    marks = [n for n in ast.walk(cs.node) if isinstance(n, ast.Assign) and ".solved[" in ast.unparse(n.targets[0]) and ast.unparse(n.value) == "True"]
     for mk in marks:
         node = cfg.node_for(mk)
         gs = [(ast.unparse(cfg.nodes[b].ast.test), lab) for b, lab in cfg.guards(node) if cfg.nodes[b].kind == "if"]
-        ok = any(t == "flag" and lab.startswith("T") for t, lab in gs)
-        ctx.check(ok, "LAB-2", cs, mk, "states are labelled solved only on the flag-true path", str(gs), "states can be labelled solved although a residual exceeded the margin")
+        ok = flag is not None and any(t == flag and lab.startswith("T") for t, lab in gs)
+        ctx.check(ok, "LAB-2", cs, mk, "states are labelled solved only on the flag-true path", str([(role_text(t, lroles), lab) for t, lab in gs]),
+                  "states can be labelled solved although a residual exceeded the margin")
     if not marks:
         ctx.violation("LAB-2", cs, cs.node, "solved labels", "no state is ever labelled solved")
-    init = [n for n in fn_body_nodes(cs) if isinstance(n, ast.Assign) and ast.unparse(n.targets[0]) == "flag" and not any(n is x for l in [w for w in ast.walk(cs.node) if isinstance(w, (ast.While, ast.For))] for x in ast.walk(l))]
-    ctx.check(bool(init) and ast.unparse(init[0].value) == "True", "LAB-2", cs, init[0] if init else cs.node, "flag starts True", "", "flag initialisation changed")
-    rets = [n for n in fn_body_nodes(cs) if isinstance(n, ast.Return)]
-    ctx.check(bool(rets) and ast.unparse(rets[0].value) == "flag", "LAB-2", cs, rets[0] if rets else cs.node, "returns the flag", "", "does not return the flag")
+    init = [n for n in own if isinstance(n, ast.Assign) and flag is not None and ast.unparse(n.targets[0]) == flag and not _in_loop(cs, n)]
+    ctx.check(bool(init) and SC.m("flag = True", init[0], {"flag": flag}) is not None, "LAB-2", cs, init[0] if init else cs.node, "flag starts True", "", "flag initialisation changed")
+    ctx.check(bool(rets) and flag is not None and SC.m("return flag", rets[0], {"flag": flag}) is not None, "LAB-2", cs, rets[0] if rets else cs.node, "returns the flag", "", "does not return the flag")
     succ = [n for n in ast.walk(cs.node) if isinstance(n, ast.For) and ".support" in ast.unparse(n.iter)]
-    ok = bool(succ) and ast.unparse(succ[0].iter).replace(" ", "") == "mdp.next_state_dist(s,self.policy(mdp,s)).support"
+    ok = bool(succ) and SC.m(f"{cm}.next_state_dist({cst}, self.policy({cm}, {cst})).support", succ[0].iter) is not None
     ctx.check(ok if ok else None, "LAB-3", cs, succ[0] if succ else cs.node, "expansion follows the greedy action's successors", "", "idiom not recognised")
     upd = [c for c in ast.walk(cs.node) if isinstance(c, ast.Call) and ast.unparse(c.func) == "self._bellman_update"]
     ctx.check(bool(upd), "LAB-3", cs, upd[0] if upd else cs.node, "unsolved closed states are backed up", "", "closed states are not updated when the check fails")
     # ---------------- trial loop
     tr = C.methods["lrtdp_trial"]
     tm, ts = tr.positional_params[1:3]
+    ST = Snips(tr)
     wl = [n for n in fn_body_nodes(tr) if isinstance(n, ast.While)]
     if not wl:
         raise AnalysisError("LRTDP.lrtdp_trial: trial loop vanished")
     w = wl[0]
-    ctx.check(ast.unparse(w.test).replace(" ", "") == f"notself.res.solved[{ts}]", "TRIAL-1", tr, w, "trial continues until a solved state is reached", "", f"trial guard is `{norm(w.test)}`")
+    ctx.check(ast.unparse(w.test).replace(" ", "") == f"notself.res.solved[{ts}]", "TRIAL-1", tr, w, "trial continues until a solved state is reached", "", f"trial guard is `{name_free(tr, w.test)}`")
     samp = [n for n in w.body if isinstance(n, ast.Assign) and ".sample(" in ast.unparse(n.value)]
     if samp:
         v = samp[0].value
         inner = v.func.value if isinstance(v.func, ast.Attribute) else None
         ok = isinstance(inner, ast.Call) and ast.unparse(inner.func) == f"{tm}.next_state_dist" and ast.unparse(inner.args[0]) == ts \
             and ast.unparse(inner.args[1]).replace(" ", "") == f"self.policy({tm},{ts})" and ast.unparse(samp[0].targets[0]) == ts
-        ctx.check(ok, "TRIAL-2", tr, samp[0], "successor ~ next_state_dist(s, greedy(s)); the state variable advances to it", "", f"trial step is `{norm(samp[0])}`")
+        ctx.check(ok, "TRIAL-2", tr, samp[0], "successor ~ next_state_dist(s, greedy(s)); the state variable advances to it", "", f"trial step is `{name_free(tr, samp[0])}`")
         ctx.check(kwarg(v, "rng") is not None and ast.unparse(kwarg(v, "rng")) == "self.rng", "TRIAL-2", tr, samp[0], "successor sampled with the planner's generator", "", "successor not sampled with self.rng")
         bu_i = [i for i, n in enumerate(w.body) if "self._bellman_update" in ast.unparse(n)]
         ctx.check(bool(bu_i) and bu_i[0] < w.body.index(samp[0]), "TRIAL-2", tr, w, "the current state is backed up before the greedy successor is sampled", "", "backup does not precede sampling")
@@ -159,28 +211,37 @@ def run(ctx: Ctx):
         ctx.check(ok, "TRIAL-3", tr, ab[0] if ab else w, "an absorbing successor is labelled solved before the guard is re-evaluated", "", "absorbing successors are not labelled solved (the trial would not stop at them)")
     else:
         ctx.violation("TRIAL-2", tr, w, "trial step", "no successor is sampled in the trial loop")
-    post = ast.unparse(tr.node)
-    ok = "while self._check_solved(mdp, s) and visited:" in post.replace(tm, "mdp").replace(ts, "s") and "s = visited.pop()" in post
+    # role `visited`: the stack tested in the second conjunct of the checking loop; the same stack is popped into the state variable
+    ok = False
+    for wn, e_ in ST.find(f"while self._check_solved({tm}, {ts}) and visited:\n    REST"):
+        if isinstance(wn.test.values[0], ast.Call) and any(wn is x for x in fn_body_nodes(tr)) and ST.has(f"{ts} = visited.pop()", {"visited": e_["visited"]}):
+            ok = True
     ctx.check(ok if ok else None, "TRIAL-3", tr, tr.node, "visited states are checked in reverse order", "", "idiom not recognised")
     # ---------------- policy: cache completeness + greedy from own list
     pol = C.methods["policy"]
-    n = cache_completeness(ctx, pol)
+    SP = Snips(pol)
+    looked_up = cache_completeness(ctx, pol)
     rets = [r for r in fn_body_nodes(pol) if isinstance(r, ast.Return)]
     pm, ps = pol.positional_params[1:3]
-    ok = bool(rets) and isinstance(rets[0].value, ast.Call) and ast.unparse(rets[0].value.func) == "max" and ast.unparse(rets[0].value.args[0]) == "action_list" \
-        and ast.unparse(kwarg(rets[0].value, "key")).replace(" ", "") == f"lambdaa:self.Q({pm},{ps},a)"
-    ctx.check(ok, "GRD-1", pol, rets[0] if rets else pol.node, "greedy action = argmax_a Q(s, a) over the state's action list", "", f"greedy action is `{norm(rets[0].value) if rets else None}`")
-    srcs = [s for s in ast.walk(pol.node) if isinstance(s, ast.Assign) and ast.unparse(s.targets[0]) == "action_list" and "actions(" in ast.unparse(s.value)]
-    ok = bool(srcs) and all(f"{pm}.actions({ps})" in ast.unparse(s.value) for s in srcs)
+    # role `action_list`: what the greedy arg-max ranges over; when the return changed shape, the value looked up in the order cache
+    e_ = SP.m(f"return max(action_list, key=lambda act: self.Q({pm}, {ps}, act))", rets[0]) if rets else None
+    alist = e_["action_list"] if e_ else (looked_up[0] if looked_up else None)
+    ctx.check(e_ is not None, "GRD-1", pol, rets[0] if rets else pol.node, "greedy action = argmax_a Q(s, a) over the state's action list", "",
+              f"greedy action is `{role_text(name_free(pol, rets[0].value), {alist: 'action list'}) if rets else None}`")
+    srcs = [n for n, _ in SP.find("action_list = E_source", {"action_list": alist})] if alist else []
+    srcs = [n for n in srcs if "actions(" in ast.unparse(n.value)]
+    ok = bool(srcs) and all(f"{pm}.actions({ps})" in ast.unparse(s_.value) for s_ in srcs)
     ctx.check(ok, "GRD-1", pol, srcs[0] if srcs else pol.node, "the action list is mdp.actions(s) (or a shuffled copy)", "", "action list is not derived from mdp.actions(s)")
     sh = [c for c in ast.walk(pol.node) if isinstance(c, ast.Call) and isinstance(c.func, ast.Attribute) and c.func.attr == "shuffle"]
     if sh:
-        ok = ast.unparse(sh[0].func.value) == "self.rng" and ast.unparse(sh[0].args[0]) == "action_list"
+        ok = alist is not None and SP.m("self.rng.shuffle(action_list)", sh[0], {"action_list": alist}) is not None
         ctx.check(ok, "GRD-1", pol, sh[0], "shuffle uses the planner's generator on a copy", "", "shuffle does not use self.rng")
-        cp = [s for s in srcs if ast.unparse(s.value).startswith("list(")]
+        cp = [s_ for s_ in srcs if ast.unparse(s_.value).startswith("list(")]
         ctx.check(bool(cp), "GRD-1", pol, sh[0], "the MDP's own action sequence is copied before shuffling", "", "the MDP's action sequence is shuffled in place")
     # ---------------- value-table default (BEL-7) and converged (BEL-5)
     lr = C.methods["lrtdp"]
+    SL = Snips(lr)
+    lm = lr.positional_params[1]
     vd = [n for n in fn_body_nodes(lr) if isinstance(n, ast.Assign) and ast.unparse(n.targets[0]) == "self.res.V"]
     if vd and isinstance(vd[0].value, ast.Call) and vd[0].value.args:
         d = vd[0].value.args[0]
@@ -189,20 +250,20 @@ def run(ctx: Ctx):
             b = d.body
             ok = isinstance(b, ast.IfExp) and isinstance(b.body, ast.Constant) and b.body.value == 0 and "is_absorbing" in ast.unparse(b.test) \
                 and ast.unparse(b.test.args[0]) == d.args.args[0].arg and "heuristic" in ast.unparse(b.orelse)
-            ctx.check(ok, "BEL-7", lr, vd[0], "value-table default: 0 at absorbing states, the heuristic elsewhere", "", f"default is `{norm(d)}`")
+            ctx.check(ok, "BEL-7", lr, vd[0], "value-table default: 0 at absorbing states, the heuristic elsewhere", "", f"default is `{name_free(lr, d)}`")
         else:
             # raw default: every reported read must then be guarded
             td = C.methods["_tear_down_plan_on"]
             reads = [x for x in ast.walk(td.node) if isinstance(x, ast.Subscript) and ast.unparse(x.value).endswith(".V") and isinstance(x.ctx, ast.Load)]
             ctx.violation("BEL-7", lr, vd[0], "value-table default is absorbing-aware",
-                          f"the lazily defaulted value table falls back to `{norm(d)}` for states never backed up; reported reads ({', '.join(norm(r, 30) for r in reads[:2])}) are not "
+                          f"the lazily defaulted value table falls back to `{name_free(lr, d)}` for states never backed up; reported reads ({', '.join(name_free(td, r, width=30) for r in reads[:2])}) are not "
                           f"guarded by is_absorbing, so an absorbing state (e.g. an absorbing initial state) is reported with the heuristic's value instead of 0")
     else:
         ctx.unknown("BEL-7", lr, lr.node, "value-table default", "assignment to self.res.V not found")
     cfg = cfg_of(lr)
     cv = [n for n in ast.walk(lr.node) if isinstance(n, ast.Assign) and ast.unparse(n.targets[0]) == "self.res.converged"]
     exits = [n.id for n in cfg.nodes if n.kind == "stmt" and isinstance(n.ast, ast.Return)] + [cfg.exit.id]
-    cnodes = {cfg.node_for(s) for s in cv}
+    cnodes = {cfg.node_for(s_) for s_ in cv}
     bad = []
     for r in [n for n in cfg.nodes if n.kind == "stmt" and isinstance(n.ast, ast.Return)]:
         if not cfg.all_paths_pass(cfg.entry.id, r.id, cnodes):
@@ -217,19 +278,48 @@ def run(ctx: Ctx):
     tv = [n for n in cv if ast.unparse(n.value) == "True"]
     ctx.check(bool(tv), "BEL-5", lr, lr.node, "converged can be True", "", "converged is never set to True")
     early = [n for n in ast.walk(lr.node) if isinstance(n, ast.If) and any(isinstance(b, ast.Return) for b in n.body)]
-    ok = bool(early) and ast.unparse(early[0].test).replace(" ", "") == "all((self.res.solved[s]forsinmdp.initial_state_dist().support))"
+    # the generator's variable is a role bound consistently in element and iteration clause
+    ok = bool(early) and SL.m(f"all(self.res.solved[state] for state in {lm}.initial_state_dist().support)", early[0].test) is not None
     ctx.check(ok if ok else None, "BEL-5", lr, early[0] if early else lr.node, "termination test: all initial states labelled solved", "", "idiom not recognised")
     # ---------------- result assembly
     td = C.methods["_tear_down_plan_on"]
-    tsrc = ast.unparse(td.node)
-    ok = "res.initial_value = sum([res.V[s0] * p for s0, p in mdp.initial_state_dist().items()])" in tsrc
-    ctx.check(ok, "BEL-6", td, td.node, "initial_value = expectation of the reported V over initial_state_dist", "", "initial value is not the expectation of the reported V")
-    ok = "for s in self.res.V.keys()" in tsrc and "policy_dict[s] = self.policy(mdp, s)" in tsrc and "q_values[s][a] = self.Q(mdp, s, a)" in tsrc and "for a in mdp.actions(s)" in tsrc
+    SD = Snips(td)
+    dm = td.positional_params[1]
+    dh = td.positional_params[2]
+    own = list(fn_body_nodes(td))
+    # roles: `res` the object that receives initial_value and whose V is averaged; `s0`, `p` the unpacked state / probability
+    iv = [n for n, _ in SD.find(f"res.initial_value = sum([res.V[s0] * p for s0, p in {dm}.initial_state_dist().items()])") if any(n is x for x in own)]
+    ctx.check(bool(iv), "BEL-6", td, td.node, "initial_value = expectation of the reported V over initial_state_dist", "", "initial value is not the expectation of the reported V")
+    # roles: `s` / `a` the loop variables over the touched states / the available actions, `policy_dict` / `q_values` the tables filled
+    ok = False
+    tables: Dict[str, object] = {}
+    for ol, e1 in SD.find("for s in self.res.V.keys():\n    REST"):
+        if not any(ol is x for x in own):
+            continue
+        for pn_, e2 in SD.find(f"policy_dict[s] = self.policy({dm}, s)", e1, within=ol):
+            for il, e3 in SD.find(f"for a in {dm}.actions(s):\n    REST", e2, within=ol):
+                for qn_, e4 in SD.find(f"q_values[s][a] = self.Q({dm}, s, a)", e3, within=il):
+                    ok, tables = True, e4
     ctx.check(ok, "RES-1", td, td.node, "reported Q and policy are computed from the final V for every touched state and available action", "", "result assembly changed")
     pf = [x for x in td.nested.values()]
     if pf:
-        psrc = ast.unparse(pf[0].node)
-        ok = "policy_dict[s]" in psrc and "for a in mdp.actions(s)" in psrc and "DictDistribution.uniform(max_actions)" in psrc and "mdp.discount_rate * heuristic(ns)" in psrc
+        # roles inside the returned policy: its parameter is the state; `a` ranges over mdp.actions(state); `max_actions` collects the
+        # maximisers and is what the uniform distribution is built from; the expectation's lambda parameter is the successor
+        SN = Snips(pf[0])
+        pa = pf[0].node.args.args
+        sp = pa[0].arg if pa else None
+        ok = False
+        pd = tables.get("policy_dict")
+        if pd is None:      # the assembly loop changed shape (reported above): the table is still the one filled from self.policy
+            pd = next((e_["policy_dict"] for _, e_ in SD.find(f"policy_dict[E_state] = self.policy({dm}, E_state)")), None)
+        if sp is not None:
+            e0 = {"s": sp, **({"policy_dict": pd} if pd is not None else {})}
+            if SN.has("policy_dict[s]", e0):
+                for il, e1 in SN.find(f"for a in {dm}.actions(s):\n    REST", e0):
+                    for _, e2 in SN.find("max_actions = [a]", e1, within=il):
+                        if SN.has("DictDistribution.uniform(max_actions)", e2) and \
+                                SN.has(f"lambda ns: {dm}.reward(s, a, ns) + {dm}.discount_rate * {dh}(ns)", e2, within=il):
+                            ok = True
         ctx.check(ok, "RES-1", pf[0], pf[0].node, "returned policy: planned action, else heuristic-greedy over mdp.actions(s)", "", "returned policy changed")
     po = C.methods["plan_on"]
     posrc = ast.unparse(po.node)
